@@ -5,6 +5,7 @@ import (
 	"compress/gzip"
 	"encoding/binary"
 	"encoding/hex"
+	"encoding/json"
 	"errors"
 	"fmt"
 	"io"
@@ -12,9 +13,15 @@ import (
 	"mime"
 	"net/http"
 	"net/http/httptest"
+	"os"
+	"path/filepath"
 	"reflect"
+	"runtime"
+	"runtime/debug"
 	"strings"
 	"sync"
+	"syscall"
+	"time"
 	"unicode/utf8"
 
 	"github.com/safing/portbase/database/record"
@@ -37,16 +44,16 @@ import (
 
 func init() {
 	props["C09"] = &propImpl{
-		shards: func(cfg vlib.Cfg) int { return cfg.N(8, 32) },
+		shards: func(cfg vlib.Cfg) int { return cfg.N(16, 32) },
 		run:    runC09,
 		rule: "c09.value: PRNG values of the harness schema (nested structs, all integer widths within +-2^53, finite floats, valid-UTF-8 strings incl. YAML-significant and non-ASCII ones, byte slices, string slices, maps, pointers, nil and empty values; record.Meta and a hand-written GenCode type; raw byte slices) x formats {JSON,CBOR,MsgPack,YAML,GenCode,RAW,AUTO} the value is representable in x compression {none,GZIP,AUTO}; " +
 			"c09.http: value x format x Accept header from a media-type grammar (supported, alias, wildcard and unsupported ranges, parameters, q-values, case, optional whitespace), request and response direction; " +
 			"c09.bytes: truncations / bit flips / splices of valid dumps, identifier-prefixed random bytes, gzip-wrapped garbage, decoder length-header attacks, random bytes (<= 4 KiB) into 7 target types through Load, LoadAsFormat, DecompressAndLoad, MimeLoad. " +
 			"distinct = distinct (class,input) pairs; non-trivial = at least one dump succeeded and its load was compared (value/http) or at least one entry point returned (bytes)",
 		finish: func(cfg vlib.Cfg, r *vlib.Report) {
-			r.Floor(r.Counter("roundtrips") >= int64(cfg.N(20000, 200000)), "roundtrips=%d", r.Counter("roundtrips"))
+			r.Floor(r.Counter("roundtrips") >= int64(cfg.N(20000, 150000)), "roundtrips=%d", r.Counter("roundtrips"))
 			r.Floor(r.Counter("http_roundtrips") >= int64(cfg.N(4000, 40000)), "http_roundtrips=%d", r.Counter("http_roundtrips"))
-			r.Floor(r.Counter("hostile_inputs") >= int64(cfg.N(10000, 1000000)), "hostile_inputs=%d", r.Counter("hostile_inputs"))
+			r.Floor(r.Counter("hostile_inputs") >= int64(cfg.N(10000, 400000)), "hostile_inputs=%d", r.Counter("hostile_inputs"))
 			r.Floor(r.SeenCount("format_x_compression") >= 21, "format x compression combinations executed: %d of 21", r.SeenCount("format_x_compression"))
 			r.Floor(r.SeenCount("http_paths") >= 3, "http paths executed: %d", r.SeenCount("http_paths"))
 			r.Assume("values are restricted to what every format can represent: valid UTF-8, finite floats, integers within +-2^53 (narrow widths: full range), no pointer to a nil slice/map")
@@ -64,7 +71,11 @@ func init() {
 			c09HTTP(c, binary.LittleEndian.Uint64(in))
 		}
 	}
-	classes["c09.bytes"] = c09Bytes
+	classes["c09.bytes"] = func(c *ctx, in []byte) {
+		c09LimitAS(c) // a replayed input runs under the same address-space limit as in the batch
+		c09Bytes(c, in)
+	}
+	classes["c09.batch"] = c09Batch
 }
 
 // ---------------------------------------------------------------------------------
@@ -228,7 +239,7 @@ func c09Str(r *vlib.Rand) string {
 		n := r.Range(1, 6)
 		b := make([]byte, n)
 		for i := range b {
-			b[i] = byte(r.Intn(0x80))
+			b[i] = byte(r.Intn(0x7f))
 		}
 		return string(b)
 	case 5:
@@ -558,6 +569,107 @@ func c09Diff(a, b reflect.Value, path string) string {
 }
 
 // ---------------------------------------------------------------------------------
+// strings the YAML dependency chain (ghodss/yaml -> yaml.v2) mishandles. They are
+// representable in YAML (escapes in double-quoted scalars), so failures on them are
+// findings — but findings of their own kind, kept apart from every other YAML failure.
+
+var c09YAMLHardKind = map[string][]string{"c1-control": {"dump-error"}, "long-key": {"dump-error"}, "merge-key": {"load-error"}, "nel": {"value-differs", "dump-error"}}
+
+func c09YAMLHardIs(feat, kind string) bool {
+	for _, k := range c09YAMLHardKind[feat] {
+		if k == kind {
+			return true
+		}
+	}
+	return false
+}
+
+var c09YAMLHardText = map[string]string{
+	"c1-control": "the value contains U+007F..U+009F or U+FFFE/U+FFFF, which ghodss/yaml passes unescaped from JSON text into the YAML reader",
+	"long-key":   "the value has a map key whose JSON text exceeds 1000 characters; ghodss/yaml parses the JSON text as a YAML flow mapping, where implicit keys are limited to 1024 characters",
+	"merge-key":  "the value has a map key \"<<\", which yaml.v2 emits unquoted and reads back as a merge key",
+	"nel":        "the value contains U+0085 (NEL), which the YAML reader treats as a line break inside the JSON text ghodss/yaml hands it (folded to a space in values, refused in keys and before ---)",
+}
+
+func c09YAMLHard(v any) []string {
+	c1, merge, nel, long := false, false, false, false
+	var walk func(x reflect.Value)
+	str := func(s string, isKey bool) {
+		for _, r := range s {
+			switch {
+			case r == 0x85:
+				nel = true
+			case (r >= 0x7f && r <= 0x9f) || r == 0xfffe || r == 0xffff:
+				c1 = true
+			}
+		}
+		if isKey && s == "<<" {
+			merge = true
+		}
+		if isKey && len(s) >= 300 {
+			if j, err := json.Marshal(s); err == nil && utf8.RuneCount(j) >= 1000 {
+				long = true
+			}
+		}
+	}
+	walk = func(x reflect.Value) {
+		switch x.Kind() {
+		case reflect.Ptr, reflect.Interface:
+			if !x.IsNil() {
+				walk(x.Elem())
+			}
+		case reflect.Struct:
+			for i := 0; i < x.NumField(); i++ {
+				walk(x.Field(i))
+			}
+		case reflect.Slice:
+			if x.Type().Elem().Kind() != reflect.Uint8 {
+				for i := 0; i < x.Len(); i++ {
+					walk(x.Index(i))
+				}
+			}
+		case reflect.Map:
+			for _, k := range x.MapKeys() {
+				if k.Kind() == reflect.String {
+					str(k.String(), true)
+				}
+				walk(x.MapIndex(k))
+			}
+		case reflect.String:
+			str(x.String(), false)
+		}
+	}
+	walk(reflect.ValueOf(v))
+	var feats []string
+	if c1 {
+		feats = append(feats, "c1-control")
+	}
+	if long {
+		feats = append(feats, "long-key")
+	}
+	if merge {
+		feats = append(feats, "merge-key")
+	}
+	if nel {
+		feats = append(feats, "nel")
+	}
+	return feats
+}
+
+// c09YAMLFinding returns the dependency feature of v that explains a failure of one of
+// the given kinds ("" if none does).
+func c09YAMLFinding(v any, kinds ...string) (feat, kind string) {
+	for _, f := range c09YAMLHard(v) {
+		for _, k := range kinds {
+			if c09YAMLHardIs(f, k) {
+				return f, k
+			}
+		}
+	}
+	return "", ""
+}
+
+// ---------------------------------------------------------------------------------
 // c09.value
 
 var c09FmtName = map[uint8]string{dsd.AUTO: "AUTO", dsd.RAW: "RAW", dsd.CBOR: "CBOR", dsd.GenCode: "GenCode", dsd.JSON: "JSON", dsd.MsgPack: "MsgPack", dsd.YAML: "YAML", dsd.GZIP: "GZIP", dsd.LIST: "LIST"}
@@ -658,12 +770,25 @@ func c09Value(c *ctx, seed uint64) {
 			if comp == c09Indented && f != dsd.JSON && f != dsd.AUTO {
 				continue
 			}
+			// every format uncompressed for every value; the (slow: one BestCompression gzip
+			// writer per call) compressed variants and the indented variant for a third each
+			if comp != c09NoComp && !r0.Chance(1, 3) {
+				continue
+			}
 			f, comp := f, comp
 			combo := c09Name(f) + "/" + c09CompName(comp)
 			bad := func(kind, what string, extra map[string]any) {
 				d := map[string]any{"class": "c09.value", "input_hex": hex.EncodeToString(in), "subject": sub.kind, "format": c09Name(f), "compression": c09CompName(comp), "build": c.spec.Kind}
 				for k, v := range extra {
 					d[k] = v
+				}
+				if f == dsd.YAML {
+					if feat, _ := c09YAMLFinding(sub.gen(vlib.NewRand(vseed, "c09.v", 0)), kind); feat != "" {
+						d["yaml_feature"] = feat
+						b.Count("yaml_dependency_findings", 1)
+						b.Violation("C09:yaml-dependency:"+feat+":"+kind, what+" ["+c09YAMLHardText[feat]+"]", d)
+						return
+					}
 				}
 				b.Violation("C09:"+kind+":"+c09Name(f)+":"+c09CompName(comp), what, d)
 			}
@@ -851,10 +976,29 @@ func c09HTTP(c *ctx, seed uint64) {
 	acc := c09GenAccept(r)
 	overWire := r.Chance(1, 4)
 	compared := false
+	// the format in play (classification of dependency findings only, never an oracle)
+	yamlInvolved := func(where string) bool {
+		if strings.HasPrefix(where, "request") {
+			return f == dsd.YAML
+		}
+		return dsd.FormatFromAccept(acc.header) == dsd.YAML || (overWire && f == dsd.YAML)
+	}
 	bad := func(kind, where, what string, extra map[string]any) {
 		d := map[string]any{"class": "c09.http", "input_hex": hex.EncodeToString(in), "format": c09Name(f), "accept": acc.header, "build": c.spec.Kind}
 		for k, v := range extra {
 			d[k] = v
+		}
+		if yamlInvolved(where) {
+			ks := []string{strings.TrimPrefix(kind, "http-")}
+			if ks[0] == "content-type-mismatch" {
+				ks = []string{"value-differs", "load-error"}
+			}
+			if feat, k2 := c09YAMLFinding(want, ks...); feat != "" {
+				d["yaml_feature"] = feat
+				b.Count("yaml_dependency_findings", 1)
+				b.Violation("C09:yaml-dependency:"+feat+":"+k2, what+" ["+c09YAMLHardText[feat]+"]", d)
+				return
+			}
 		}
 		b.Violation("C09:"+kind+":"+where, what, d)
 	}
@@ -1019,6 +1163,15 @@ func c09HTTP(c *ctx, seed uint64) {
 
 // ---------------------------------------------------------------------------------
 // c09.bytes — totality
+//
+// Hostile inputs are not decoded inside the shard process: a decoder that trusts a length
+// header dies with "fatal error: out of memory", which no recover() can turn into an
+// observation. The shard writes its input list to a file and lets grandchild processes
+// (class c09.batch, same binary) work through it; before every portbase call the
+// grandchild notes (index, call) in a progress file, so a dead grandchild names its
+// killer; the list is then resumed after the killer. Plain and checkptr grandchildren
+// run under RLIMIT_AS = 2 GiB so that the verdict does not depend on the machine's RAM:
+// no input here is larger than 4 KiB (<= 1 MiB after decompression).
 
 var c09Targets = []struct {
 	name  string
@@ -1035,12 +1188,55 @@ var c09Targets = []struct {
 
 var c09ContentTypes = []string{"application/json", "application/cbor", "application/msgpack", "application/yaml", "text/yml; charset=utf-8", "", "*/*", "text/html"}
 
+var (
+	c09Progress *os.File
+	c09Index    int
+)
+
+func c09Mark(what string) {
+	if c09Progress != nil {
+		line := fmt.Sprintf("%-127s\n", fmt.Sprintf("%d %s", c09Index, what))
+		_, _ = c09Progress.WriteAt([]byte(line), 0)
+	}
+}
+
+// c09InnerFormat names the serialization format an identified blob claims (diagnostics
+// and signatures only).
+func c09InnerFormat(in []byte, gz bool) string {
+	if gz {
+		un, err := c09GunzipLimit(in, 16)
+		if err != nil || len(un) == 0 {
+			return "none"
+		}
+		return c09Name(un[0])
+	}
+	if len(in) == 0 {
+		return "none"
+	}
+	if in[0] == dsd.GZIP {
+		return c09InnerFormat(in[1:], true)
+	}
+	return c09Name(in[0])
+}
+
+func c09GunzipLimit(b []byte, n int64) ([]byte, error) {
+	zr, err := gzip.NewReader(bytes.NewReader(b))
+	if err != nil {
+		return nil, err
+	}
+	out, err := io.ReadAll(io.LimitReader(zr, n))
+	if len(out) > 0 {
+		return out, nil
+	}
+	return out, err
+}
+
 func c09Bytes(c *ctx, in []byte) {
 	b := c.b
 	b.Eval(1)
 	b.Count("hostile_inputs", 1)
 	returned := false
-	check := func(fn string, f uint8, err error) {
+	check := func(err error) {
 		returned = true
 		if err != nil {
 			b.Count("load_errors", 1)
@@ -1048,30 +1244,35 @@ func c09Bytes(c *ctx, in []byte) {
 			b.Count("load_values", 1)
 		}
 	}
+	do := func(what string, fn func()) {
+		c09Mark(what)
+		c.call("c09.bytes", in, fn)
+	}
+	fLoad := c09InnerFormat(in, false)
+	fGz := c09InnerFormat(in, true)
 	for ti, tg := range c09Targets {
 		tg := tg
-		c.call("c09.bytes", in, func() {
-			f, err := dsd.Load(exact(in), tg.fresh())
-			check("Load", f, err)
+		do("Load:"+fLoad+":"+tg.name, func() {
+			_, err := dsd.Load(exact(in), tg.fresh())
+			check(err)
 		})
-		c.call("c09.bytes", in, func() {
-			f, err := dsd.DecompressAndLoad(exact(in), dsd.GZIP, tg.fresh())
-			check("DecompressAndLoad", f, err)
+		do("DecompressAndLoad:"+fGz+":"+tg.name, func() {
+			_, err := dsd.DecompressAndLoad(exact(in), dsd.GZIP, tg.fresh())
+			check(err)
 		})
 		// the same bytes without identifier through the explicit-format and mime entry points
 		for _, f := range []uint8{dsd.JSON, dsd.CBOR, dsd.MsgPack, dsd.YAML, dsd.GenCode} {
 			f := f
-			c.call("c09.bytes", in, func() {
-				err := dsd.LoadAsFormat(exact(in), f, tg.fresh())
-				check("LoadAsFormat", f, err)
+			do("LoadAsFormat:"+c09Name(f)+":"+tg.name, func() {
+				check(dsd.LoadAsFormat(exact(in), f, tg.fresh()))
 			})
 		}
 		if ti == 0 {
 			for _, f := range []uint8{dsd.AUTO, dsd.RAW, dsd.GZIP, dsd.LIST, 2, 128, 255} {
 				f := f
-				c.call("c09.bytes", in, func() {
+				do("LoadAsFormat:"+c09Name(f)+":"+tg.name, func() {
 					err := dsd.LoadAsFormat(exact(in), f, tg.fresh())
-					check("LoadAsFormat", f, err)
+					check(err)
 					if f == dsd.RAW && !errors.Is(err, dsd.ErrIsRaw) {
 						b.Violation("C09:raw-contract:LoadAsFormat", fmt.Sprintf("LoadAsFormat(RAW) returned %v, not ErrIsRaw", err), map[string]any{"class": "c09.bytes", "input_hex": hex.EncodeToString(trunc(in, 4096))})
 					}
@@ -1079,21 +1280,197 @@ func c09Bytes(c *ctx, in []byte) {
 			}
 			for _, ct := range c09ContentTypes {
 				ct := ct
-				c.call("c09.bytes", in, func() {
-					f, err := dsd.MimeLoad(exact(in), ct, tg.fresh())
-					check("MimeLoad", f, err)
+				do("MimeLoad:"+c09Name(dsd.FormatFromAccept(ct))+":"+tg.name, func() {
+					_, err := dsd.MimeLoad(exact(in), ct, tg.fresh())
+					check(err)
 				})
 			}
-			c.call("c09.bytes", in, func() {
+		}
+		if ti <= 2 {
+			do("LoadFromHTTPRequest:MsgPack:"+tg.name, func() {
 				req := httptest.NewRequest(http.MethodPost, "http://c09.test/", bytes.NewReader(in))
 				req.Header.Set("Content-Type", "application/msgpack")
-				f, err := dsd.LoadFromHTTPRequest(req, tg.fresh())
-				check("LoadFromHTTPRequest", f, err)
+				_, err := dsd.LoadFromHTTPRequest(req, tg.fresh())
+				check(err)
 			})
 		}
 	}
 	if returned {
 		b.Distinct([]byte("c09.bytes"), in)
+	}
+}
+
+func c09LimitAS(c *ctx) {
+	if c.spec.Kind == "plain" || c.spec.Kind == "checkptr" {
+		lim := syscall.Rlimit{Cur: 2 << 30, Max: 2 << 30}
+		if err := syscall.Setrlimit(syscall.RLIMIT_AS, &lim); err != nil {
+			c.b.Note("c09: setrlimit failed: %v", err)
+		} else {
+			c.b.Count("batches_with_rlimit_as_2GiB", 1)
+		}
+	}
+}
+
+// c09Batch is the grandchild: input = "<file>\x00<from>\x00<to>".
+func c09Batch(c *ctx, in []byte) {
+	parts := strings.Split(string(in), "\x00")
+	if len(parts) != 3 {
+		return
+	}
+	var from, to int
+	fmt.Sscan(parts[1], &from)
+	fmt.Sscan(parts[2], &to)
+	raw, err := os.ReadFile(parts[0])
+	if err != nil {
+		c.b.Inconclusive("c09.batch: cannot read %s: %v", parts[0], err)
+		return
+	}
+	var inputs [][]byte
+	for len(raw) >= 4 {
+		n := int(binary.LittleEndian.Uint32(raw))
+		if n > len(raw)-4 {
+			break
+		}
+		inputs = append(inputs, raw[4:4+n:4+n])
+		raw = raw[4+n:]
+	}
+	runtime.GOMAXPROCS(2)
+	c09LimitAS(c)
+	c09Progress, _ = os.Create(filepath.Join(c.dir, "progress"))
+	for i := from; i < to && i < len(inputs); i++ {
+		c09Index = i
+		c09Bytes(c, inputs[i])
+	}
+	c09Index = -1
+	c09Mark("done")
+}
+
+func c09FatalLine(stderr string) string {
+	for _, ln := range strings.Split(stderr, "\n") {
+		ln = strings.TrimSpace(ln)
+		if strings.HasPrefix(ln, "fatal error:") || strings.HasPrefix(ln, "panic:") || strings.Contains(ln, "ERROR: AddressSanitizer") || strings.HasPrefix(ln, "runtime: goroutine stack exceeds") {
+			ln = strings.TrimPrefix(ln, "fatal error: ")
+			ln = strings.TrimPrefix(ln, "runtime: ")
+			if len(ln) > 60 {
+				ln = ln[:60]
+			}
+			return strings.ReplaceAll(ln, " ", "-")
+		}
+	}
+	return "unknown"
+}
+
+// c09RunHostile lets grandchildren decode the inputs and merges what they observed.
+func c09RunHostile(c *ctx, inputs [][]byte) {
+	if len(inputs) == 0 {
+		return
+	}
+	b := c.b
+	cfg := vlib.Load()
+	self, err := os.Executable()
+	if err != nil {
+		b.Inconclusive("c09: cannot find own executable: %v", err)
+		return
+	}
+	var buf bytes.Buffer
+	for _, in := range inputs {
+		var l [4]byte
+		binary.LittleEndian.PutUint32(l[:], uint32(len(in)))
+		buf.Write(l[:])
+		buf.Write(in)
+	}
+	file := filepath.Join(c.dir, "hostile.bin")
+	if err := os.WriteFile(file, buf.Bytes(), 0o644); err != nil {
+		b.Inconclusive("c09: cannot write batch file: %v", err)
+		return
+	}
+	defer os.Remove(file)
+	type seg struct{ from, to int }
+	var queue []seg
+	for from := 0; from < len(inputs); from += 100 { // a death costs at most one chunk
+		queue = append(queue, seg{from, min(from+100, len(inputs))})
+	}
+	for attempt := 1; len(queue) > 0; attempt++ {
+		sg := queue[0]
+		queue = queue[1:]
+		if sg.from >= sg.to {
+			continue
+		}
+		if attempt > 400 {
+			b.Inconclusive("c09.bytes: more than 400 grandchild runs in shard %d; %d inputs not decoded", c.spec.Shard, sg.to-sg.from)
+			continue
+		}
+		sp := c.spec
+		sp.Journal = false
+		sp.ReplayClass = "c09.batch"
+		sp.ReplayInput = hex.EncodeToString([]byte(fmt.Sprintf("%s\x00%d\x00%d", file, sg.from, sg.to)))
+		res := vlib.RunChild(cfg, vlib.ChildSpec{Name: fmt.Sprintf("c09b-%s-%03d-%03d", c.spec.Kind, c.spec.Shard, attempt), Bin: self, Spec: sp,
+			Timeout: 15 * time.Minute, Race: c.spec.Kind == "race", Env: []string{"ASAN_OPTIONS=abort_on_error=0:halt_on_error=1:detect_leaks=0"}})
+		for _, rr := range res.Races {
+			if !rr.HarnessOnly() {
+				b.Violation("C09:race:"+rr.Signature(), "data race reported in a pure codec function", map[string]any{"report": rr.Text})
+			}
+		}
+		if res.Done {
+			var gb vlib.Batch
+			if err := json.Unmarshal(res.Out, &gb); err != nil {
+				b.Inconclusive("c09.bytes: unreadable grandchild result: %v", err)
+			} else {
+				b.Eval(gb.Evals - 1)
+				for k, v := range gb.Counters {
+					b.Count(k, v)
+				}
+				for k, ms := range gb.SeenSets {
+					for _, m := range ms {
+						b.Seen(k, m)
+					}
+				}
+				for _, v := range gb.Violations {
+					for i := 0; i < v.Count; i++ {
+						b.Violation(v.Sig, v.What, v.Detail)
+					}
+				}
+				for _, n := range gb.Inconcl {
+					b.Inconclusive("%s", n)
+				}
+				for _, n := range gb.Notes {
+					b.Note("%s", n)
+				}
+				for i := sg.from; i < sg.to; i++ {
+					b.Distinct([]byte("c09.bytes"), inputs[i])
+				}
+				b.Count("hostile_batches", 1)
+			}
+			_ = os.RemoveAll(res.Dir)
+			continue
+		}
+		// the grandchild died (or hung): name the killer and resume after it
+		idx, what := -1, ""
+		if p, err := os.ReadFile(filepath.Join(res.Dir, "progress")); err == nil {
+			fmt.Sscan(string(p), &idx, &what)
+		}
+		stderr, _ := os.ReadFile(filepath.Join(res.Dir, "stderr"))
+		_ = os.RemoveAll(res.Dir)
+		if idx < sg.from || idx >= sg.to {
+			b.Inconclusive("c09.bytes: grandchild for inputs [%d,%d) of shard %d ended (exit %d signal %q timeout %v) without usable progress; stderr: %s",
+				sg.from, sg.to, c.spec.Shard, res.Exit, res.Signal, res.TimedOut, trunc(stderr, 600))
+			continue
+		}
+		if res.TimedOut {
+			b.Inconclusive("c09.bytes: %s did not return within the 15 min watchdog for input %x", what, trunc(inputs[idx], 64))
+		} else {
+			site := c09FatalLine(string(stderr))
+			if site == "unknown" && res.Signal != "" {
+				site = "signal-" + strings.ReplaceAll(res.Signal, " ", "-")
+			}
+			b.Count("hostile_process_deaths", 1)
+			b.Violation("C09:fatal:"+site+":"+what,
+				fmt.Sprintf("the process died (%s; exit=%d signal=%q) inside dsd.%s for a %d-byte input: neither a value nor an error was returned", site, res.Exit, res.Signal, what, len(inputs[idx])),
+				map[string]any{"class": "c09.bytes", "input_hex": hex.EncodeToString(trunc(inputs[idx], 4096)), "input_len": len(inputs[idx]), "call": what, "build": c.spec.Kind,
+					"stderr_head": string(trunc(stderr, 1800))})
+		}
+		// what the dead process had observed before the killer is lost with it: redo that part
+		queue = append(queue, seg{sg.from, idx}, seg{idx + 1, sg.to})
 	}
 }
 
@@ -1133,16 +1510,19 @@ func c09ValidDump(r *vlib.Rand) []byte {
 }
 
 var c09Attacks = [][]byte{
-	{dsd.MsgPack, 0xdd, 0xff, 0xff, 0xff, 0xff},                         // array32 of 2^32-1
-	{dsd.MsgPack, 0xdf, 0xff, 0xff, 0xff, 0xff},                         // map32
-	{dsd.MsgPack, 0xc6, 0xff, 0xff, 0xff, 0xff},                         // bin32
-	{dsd.MsgPack, 0xdb, 0x7f, 0xff, 0xff, 0xff, 'a'},                    // str32
-	{dsd.MsgPack, 0xc9, 0xff, 0xff, 0xff, 0xff, 0x01},                   // ext32
-	{dsd.CBOR, 0x9b, 0xff, 0xff, 0xff, 0xff, 0xff, 0xff, 0xff, 0xff},    // array 2^64-1
-	{dsd.CBOR, 0xbb, 0x7f, 0xff, 0xff, 0xff, 0xff, 0xff, 0xff, 0xff},    // map
-	{dsd.CBOR, 0x5b, 0x7f, 0xff, 0xff, 0xff, 0xff, 0xff, 0xff, 0xff},    // bytes
-	{dsd.CBOR, 0x7b, 0x00, 0x00, 0x00, 0x01, 0x00, 0x00, 0x00, 0x00},    // text 4 GiB
-	{dsd.CBOR, 0x9f},                                                    // indefinite array, no break
+	{dsd.MsgPack, 0xdd, 0xff, 0xff, 0xff, 0xff},                            // array32 of 2^32-1
+	{dsd.MsgPack, 0xdf, 0xff, 0xff, 0xff, 0xff},                            // map32
+	{dsd.MsgPack, 0xc6, 0xff, 0xff, 0xff, 0xff},                            // bin32
+	{dsd.MsgPack, 0xdb, 0x7f, 0xff, 0xff, 0xff, 'a'},                       // str32
+	{dsd.MsgPack, 0xc9, 0xff, 0xff, 0xff, 0xff, 0x01},                      // ext32
+	{dsd.MsgPack, 0x81, 0xa1, 'M', 0xdf, 0x7f, 0xff, 0xff, 0xff},           // map32 inside a struct field
+	{dsd.MsgPack, 0x81, 0xa2, 'S', 'a', 0xdd, 0x7f, 0xff, 0xff, 0xff},      // array32 inside a struct field
+	{dsd.CBOR, 0x9b, 0xff, 0xff, 0xff, 0xff, 0xff, 0xff, 0xff, 0xff},       // array 2^64-1
+	{dsd.CBOR, 0xbb, 0x7f, 0xff, 0xff, 0xff, 0xff, 0xff, 0xff, 0xff},       // map
+	{dsd.CBOR, 0x5b, 0x7f, 0xff, 0xff, 0xff, 0xff, 0xff, 0xff, 0xff},       // bytes
+	{dsd.CBOR, 0x7b, 0x00, 0x00, 0x00, 0x01, 0x00, 0x00, 0x00, 0x00},       // text 4 GiB
+	{dsd.CBOR, 0x9a, 0x00, 0x01, 0xff, 0xff},                               // array just below the decoder limit
+	{dsd.CBOR, 0x9f},                                                       // indefinite array, no break
 	{dsd.CBOR, 0xc2, 0x5b, 0xff, 0xff, 0xff, 0xff, 0xff, 0xff, 0xff, 0xff}, // bignum
 	{dsd.GenCode, 0xff, 0xff, 0xff, 0xff, 0xff, 0xff, 0xff, 0xff, 0xff, 0xff, 0x01},
 	{dsd.GZIP}, {dsd.GZIP, 0x1f, 0x8b}, {dsd.GZIP, 0x1f, 0x8b, 8, 0, 0, 0, 0, 0, 0, 0xff},
@@ -1176,43 +1556,64 @@ func runC09(c *ctx) {
 
 	// (1) values
 	rv := c.rand("values")
-	nv := c.n(4000, 40000) / ns
+	div := 1 // the sanitizer builds run a prefix (a third) of the plain build's case lists
+	if c.spec.Kind != "plain" {
+		div = 3
+	}
+	debug.SetGCPercent(400)
+	runtime.GOMAXPROCS(2) // single-threaded work; keeps GC workers from fighting 16 sibling processes
+	nv := c.n(8000, 60000) / ns / div
 	for i := 0; i < nv; i++ {
 		c09Value(c, rv.Uint64())
 	}
 	// (2) http
 	rh := c.rand("http")
-	nh := c.n(4800, 48000) / ns
+	nh := c.n(9600, 72000) / ns / div
 	for i := 0; i < nh; i++ {
 		c09HTTP(c, rh.Uint64())
 	}
 	if c09Srv != nil {
 		c09Srv.Close()
 	}
-	// (3) hostile bytes
+	// (3) hostile bytes, collected and decoded in grandchildren
+	// Builds that cannot run under an address-space limit are kept away from inputs that
+	// make a decoder allocate by length header: where such an allocation does not kill the
+	// process it costs seconds to minutes of page faults in the sanitizer's shadow memory,
+	// and whether it kills depends on the machine. The race build (whose only addition for
+	// single-threaded decoding is checkptr, which has its own build here) and the asan build
+	// (observed: the kernel OOM killer ends it on an 11-byte MsgPack input) skip the hostile
+	// class; plain and checkptr run it under RLIMIT_AS.
+	if c.spec.Kind == "race" || c.spec.Kind == "asan" {
+		return
+	}
+	limited := c.spec.Kind == "plain" || c.spec.Kind == "checkptr"
+	var hostile [][]byte
+	add := func(in []byte) { hostile = append(hostile, append([]byte{}, c09Cap(in)...)) }
 	if s == 0 {
-		c09Bytes(c, nil)
+		add(nil)
+		for id := 0; id < 256; id++ {
+			add([]byte{byte(id)})
+			add([]byte{byte(id), '{', '}'})
+		}
+	}
+	if s == 0 && limited {
 		for _, a := range c09Attacks {
-			c09Bytes(c, a)
+			add(a)
 			if len(a) > 1 {
-				c09Bytes(c, append([]byte{dsd.GZIP}, c09Gzip(a)...))
+				add(append([]byte{dsd.GZIP}, c09Gzip(a)...))
 			}
 		}
-		for id := 0; id < 256; id++ {
-			c09Bytes(c, []byte{byte(id)})
-			c09Bytes(c, []byte{byte(id), '{', '}'})
-		}
-		// small gzip bombs (expand to <= 4 MiB) and deep nesting behind compression
+		// small gzip bombs (expand to 1 MiB) and deep nesting behind compression
 		for _, fill := range []string{"[", "{\"a\":", "- ", "\x91", "\x81", " "} {
 			for _, f := range []uint8{dsd.JSON, dsd.YAML, dsd.MsgPack, dsd.CBOR} {
-				inner := append([]byte{f}, bytes.Repeat([]byte(fill), (1<<22)/len(fill))...)
-				c09Bytes(c, c09Cap(append([]byte{dsd.GZIP}, c09Gzip(inner)...)))
+				inner := append([]byte{f}, bytes.Repeat([]byte(fill), (1<<20)/len(fill))...)
+				add(append([]byte{dsd.GZIP}, c09Gzip(inner)...))
 			}
 		}
 	}
 	rb := c.rand("bytes")
-	nb := c.n(12000, 1000000) / ns
-	for i := 0; i < nb; {
+	nb := c.n(24000, 500000) / ns / div
+	for len(hostile) < nb {
 		switch rb.Intn(8) {
 		case 0: // every truncation of a valid dump (bounded)
 			d := c09Cap(c09ValidDump(rb))
@@ -1220,9 +1621,8 @@ func runC09(c *ctx) {
 			if len(d) > 64 {
 				step = len(d) / 48
 			}
-			for n := 0; n < len(d) && i < nb; n += step {
-				c09Bytes(c, d[:n])
-				i++
+			for n := 0; n < len(d); n += step {
+				add(d[:n])
 			}
 		case 1, 2: // byte flips / overwrites
 			d := append([]byte{}, c09Cap(c09ValidDump(rb))...)
@@ -1234,17 +1634,14 @@ func runC09(c *ctx) {
 					d[p] = byte(rb.Uint64())
 				}
 			}
-			c09Bytes(c, d)
-			i++
+			add(d)
 		case 3: // splice two dumps
 			d1, d2 := c09Cap(c09ValidDump(rb)), c09Cap(c09ValidDump(rb))
-			c09Bytes(c, c09Cap(append(append([]byte{}, d1[:rb.Intn(len(d1)+1)]...), d2[rb.Intn(len(d2)+1):]...)))
-			i++
+			add(append(append([]byte{}, d1[:rb.Intn(len(d1)+1)]...), d2[rb.Intn(len(d2)+1):]...))
 		case 4: // valid identifier + random body
 			id := vlib.Pick(rb, uint8(dsd.JSON), dsd.CBOR, dsd.MsgPack, dsd.YAML, dsd.GenCode, dsd.RAW, dsd.GZIP, dsd.AUTO, dsd.LIST)
-			c09Bytes(c, append([]byte{id}, rb.Bytes(rb.Intn(64))...))
-			i++
-		case 5: // gzip-wrapped: valid inner, corrupted inner, wrong inner id, corrupted gzip stream
+			add(append([]byte{id}, rb.Bytes(rb.Intn(64))...))
+		case 5: // gzip-wrapped: valid inner, corrupted inner, corrupted or truncated gzip stream
 			inner := append([]byte{}, c09Cap(c09ValidDump(rb))...)
 			if rb.Bool() && len(inner) > 0 {
 				inner[rb.Intn(len(inner))] ^= byte(1 + rb.Intn(255))
@@ -1256,8 +1653,7 @@ func runC09(c *ctx) {
 			if rb.Chance(1, 4) {
 				z = z[:rb.Intn(len(z))]
 			}
-			c09Bytes(c, c09Cap(append([]byte{dsd.GZIP}, z...)))
-			i++
+			add(append([]byte{dsd.GZIP}, z...))
 		case 6: // structured text fragments
 			frag := []string{"{", "}", "[", "]", ":", ",", "\"", "a", "1", "-", "null", "true", "\\u00", "\\", "\n", " ", "- ", "&a", "*a", "!!", "|", ">", "? ", "'", "e9", ".", "~", "#", "%", "---", "..."}
 			var sb bytes.Buffer
@@ -1265,11 +1661,10 @@ func runC09(c *ctx) {
 			for k, n := 0, rb.Range(1, 24); k < n; k++ {
 				sb.WriteString(vlib.Pick(rb, frag...))
 			}
-			c09Bytes(c, sb.Bytes())
-			i++
+			add(sb.Bytes())
 		default:
-			c09Bytes(c, rb.Bytes(rb.Intn(48)))
-			i++
+			add(rb.Bytes(rb.Intn(48)))
 		}
 	}
+	c09RunHostile(c, hostile)
 }
